@@ -1897,6 +1897,9 @@ def run(ctx: vlib.Ctx):
                            "Any / pass_through positions are excepted in both directions (DESIGN 3.1 note ii)")
     ctx.assumptions.append("mutation-freedom is established on the real library by snapshot/deep-equal comparison over "
                            "generated inputs; in the Coq model it holds by construction (pure functions)")
+    # (T) the copy / by-reference / comprehension decision of the model is the function translated from
+    # pack.py:pack_collection on this run (kernel K15)
+    ctx.theorems("props/C18_kernel.vo", ["C18_seq_decision_is_source", "C18_map_decision_is_source"], kernels=["K15"])
     br = ctx.theorems("props/C18_share.vo", THEOREMS)
     if not ctx.quick() and br.ok:
         # second opinion: the independent checker re-validates the compiled library and reports every axiom
@@ -1969,8 +1972,8 @@ def run(ctx: vlib.Ctx):
                 crashes = [(c, why) for c, why in crashes if id(c) not in agree]
         badset = {id(c) for c in (bad or [])}
         for c, what, rp, sig in pend.items:
-            if (sig.get("kind") == "extra-share" and sig.get("cause") == "other" and side == "pack" and c is not None
-                    and id(c) in udet_false and id(c) not in badset):
+            if (sig.get("kind") in ("extra-share", "missed-share") and sig.get("cause") == "other" and side == "pack"
+                    and c is not None and id(c) in udet_false and id(c) not in badset):
                 # the faithful model predicts exactly this result and says the union dispatch leaves the member the
                 # value belongs to (C18_share_union_refuted)
                 sig = {**sig, "cause": "union-dispatch"}
